@@ -120,6 +120,10 @@ func runC14(c *Ctx) {
 		return
 	}
 	c.analysed(relName(mg))
+	c.rule("recursion-visits-every-field", "(shared with C10) the alias mangler is the one mangler that both emits two fields and recurses: the loop over one input field's output fields in the recursive (reverse) translation ends only by exhaustion or an error, so a nil copy does not keep the other copy from being reverse-translated", 3)
+	c10RecursionVisitsEveryField(c, "recursion-visits-every-field")
+	c.rule("manglers-keep-no-state", "(shared with C10) Mangle / Unmangle / ShouldRecurse write nothing reachable from the mangler: the same alias mangler sees the same tag strings again for every field of a re-used struct type and on every reload, and must treat them the same each time", 9)
+	c10ManglersKeepNoState(c, "manglers-keep-no-state")
 	c14AliasUnmangle(c)
 	c14EzWrapAlways(c, "ez-wrap-always")
 	// every alias tag is rewritten: the loops of Mangle end only by exhaustion (or an error return)
@@ -359,6 +363,25 @@ func runC11(c *Ctx) {
 		return st != nil && st.Val == strV
 	}, &flowOpts{through: map[string]bool{"reflect.ValueOf": true}})
 	c.check(okVal, "only-present", "env#set-value", set.Pos(), "the value written is (a pointer to) the looked-up string", "the value written is not the looked-up string")
+	// the struct that is filled is the all-unset value this very call translated: a translated value kept from an
+	// earlier call (a cache in the Source) still carries the fields set for variables that have since disappeared
+	{
+		isFreshTranslate := func(x ssa.Value) bool {
+			e, ok := x.(*ssa.Extract)
+			if !ok || e.Index != 0 {
+				return false
+			}
+			call, ok := e.Tuple.(*ssa.Call)
+			return ok && call.Parent() == f && strings.HasSuffix(calleeFullName(call), "transform.Transformer).Translate")
+		}
+		target := set.Call.Args[0]
+		if fc, ok := target.(*ssa.Call); ok && calleeFullName(fc) == "(reflect.Value).Field" {
+			target = fc.Call.Args[0]
+		}
+		okFresh := derivesAllLive(target, set.Block(), isFreshTranslate, nil)
+		c.check(okFresh, "only-present", "env#fills-fresh-translation", set.Pos(), "the struct being filled is the result of this call's own Translate()",
+			"the struct whose fields are set is not (on every path) the value this call translated: a translated value kept across calls keeps the fields of variables that are no longer present, so a variable that has disappeared still sets its field")
+	}
 	// the index: val.Field(i).Set(...) and the tag read from valType.Field(i) with the same i
 	okIdx := false
 	if fc, ok := set.Call.Args[0].(*ssa.Call); ok && calleeFullName(fc) == "(reflect.Value).Field" {
